@@ -4,6 +4,7 @@ import (
 	"strconv"
 	"testing"
 
+	restful "github.com/emicklei/go-restful/v3"
 	"pgregory.net/rapid"
 
 	"verif/internal/gen"
@@ -26,7 +27,31 @@ func genRoutingCase(t *rapid.T, adversarial bool) RoutingCase {
 	}
 	c.Table = gen.Table(t, cfg)
 	c.Reqs = genRequests(t, c.Table, cfg, 1, 12)
+	if rapid.IntRange(0, 2).Draw(t, "viaserve") == 0 {
+		// through ServeHTTP: net/http's mux sits in front (pattern registration, path cleaning)
+		c.Via = harness.ViaServe
+	}
 	return c
+}
+
+// muxAnswered reports that net/http's ServeMux answered by itself (redirect to the cleaned
+// path, bad request): not a framework decision.
+func muxAnswered(via string, o harness.Outcome) bool {
+	return via == harness.ViaServe && len(o.Ran) == 0 && (o.Status/100 == 3 || o.Status == 400)
+}
+
+func buildRouting(c RoutingCase, rec *harness.Recorder, nContainerFilters int) (*restful.Container, interface{}) {
+	if c.Via == harness.ViaServe {
+		return buildWith(c.Table, &harness.Options{Router: c.Router, ContainerFilters: nContainerFilters}, rec, false)
+	}
+	return buildDispatchOnly(c.Table, c.Router, rec, nContainerFilters)
+}
+
+func viaOf(c RoutingCase) string {
+	if c.Via == harness.ViaServe {
+		return harness.ViaServe
+	}
+	return harness.ViaDispatch
 }
 
 func validErrorStatus(s int) bool { return s == 404 || s == 405 || s == 415 || s == 406 }
@@ -34,18 +59,23 @@ func validErrorStatus(s int) bool { return s == 404 || s == 405 || s == 415 || s
 func checkC02(c RoutingCase) (vs []*Violation) {
 	st := stats.For("C02", "TestC02")
 	rec := harness.NewRecorder()
-	ct, p := buildDispatchOnly(c.Table, c.Router, rec, 0)
+	ct, p := buildRouting(c, rec, 0)
 	if p != nil {
 		return []*Violation{viol("", "building the table panicked: %v", p)}
 	}
+	via := viaOf(c)
 	nontrivial := false
-	labels := []string{"router_" + c.Router}
+	labels := []string{"router_" + c.Router, "via_" + via}
 	for i, req := range c.Reqs {
 		harness.SetTrace(false)
-		o := harness.Do(ct, rec, req, harness.ViaDispatch, strconv.Itoa(i))
+		o := harness.Do(ct, rec, req, via, strconv.Itoa(i))
 		harness.SetTrace(true)
-		ot := harness.Do(ct, rec, req, harness.ViaDispatch, strconv.Itoa(i)+"t")
+		ot := harness.Do(ct, rec, req, via, strconv.Itoa(i)+"t")
 		harness.SetTrace(false)
+		if muxAnswered(via, o) {
+			labels = append(labels, "answered_by_net_http_mux")
+			continue
+		}
 		v := model.Decide(c.Table, req, c.Router)
 		where := c.Router + " " + req.Method + " " + strconv.Quote(req.Path)
 		// totality
